@@ -62,7 +62,7 @@ def functions():
 def bounds(tier):
     q = tier == "quick"
     return {
-        "script_events": 6 if q else 8,
+        "script_events": 6 if q else 7,
         "requests": 3,
         "frame_ids": "each live / answered / cancelled request id, or an unknown id",
         "chunking": "whole | cut inside the length prefix | cut inside the correlation id | cut before the last byte | coalesced with a second frame",
@@ -78,10 +78,10 @@ def limits(tier):
 def jobs(tier):
     q = tier == "quick"
     return [
-        {"kind": "broker", "K": 6 if q else 8, "noreply": False},
-        {"kind": "broker", "K": 5 if q else 7, "noreply": False, "reentrant": True},
-        {"kind": "broker", "K": 5 if q else 7, "noreply": True},
-        {"kind": "broker", "K": 5 if q else 7, "noreply": False, "eb_cancel": True},
+        {"kind": "broker", "K": 6 if q else 7, "noreply": False},
+        {"kind": "broker", "K": 5 if q else 6, "noreply": False, "reentrant": True},
+        {"kind": "broker", "K": 5 if q else 6, "noreply": True},
+        {"kind": "broker", "K": 5 if q else 6, "noreply": False, "eb_cancel": True},
         {"kind": "bootstrap", "K": 5 if q else 6},
     ]
 
